@@ -30,7 +30,7 @@ ASSUMPTIONS = ["TestScheduler / HistoricalScheduler are the clocks (ordering che
                "error, are outside the statement (the former are not generated, the check stops judging at the latter)",
                "partition: only the routing of elements is judged (the statement says nothing else); both outputs are "
                "subscribed at the same instant before the first element"]
-CASES = {"quick": 3600, "thorough": 300000}
+CASES = {"quick": 3600, "thorough": 600000}
 OPS = ["group_by", "group_by_until", "group_by_until", "partition"]
 REQUIRED = {"set:ops": 3, "set:keys": 7,
             "groups_with_falsy_key": {"quick": 100, "thorough": 5000},
